@@ -835,7 +835,12 @@ class Extractor:
                         self.report['unanchored'].append({'what': '%s proof %s "%s"' % (path, p.where, p.anchor), 'src': p.src})
                         continue
                     st_start, st_end = pos
-                    if p.where == 'before':
+                    if p.where == 'tail':
+                        # R11: bind the tail expression so that a proof block can follow it:  E  ->  { let ret__ = E; proof {..} ret__ }
+                        edits.append(Edit(st_start, st_start, '{ let ret__ = ', ('gen', 'R11')))
+                        edits.append(Edit(st_end, st_end, ';' + block.replace('%r', 'ret__') + ' ret__ }', ('inj', 'proof', p.src, 'proof')))
+                        self.log_rule('R11', relfile, src.count('\n', 0, st_start) + 1, 'tail expression bound for a proof block in ' + path)
+                    elif p.where == 'before':
                         edits.append(Edit(st_start, st_start, block, ('inj', 'proof', p.src, 'proof')))
                     else:
                         edits.append(Edit(st_end, st_end, block, ('inj', 'proof', p.src, 'proof')))
